@@ -480,6 +480,7 @@ def execute(node, case, rec, opts):
     nsnap_inside_open = 0
     union_src_used = False   # an append/extend took its elements from a union-typed array (known finding F14)
     pending_fail = None      # countdown for the allocation-failure fault of the next command
+    skip_open = 0            # > 0: commands of a value that a clear() inside it interrupted are being skipped
     seam = node.alloc_supported()
 
     def check_old_snapshots(t, why):
@@ -571,10 +572,8 @@ def execute(node, case, rec, opts):
             continue
         if k == "clear":
             if model.stack:
-                # the state of open structures after clear() is not specified (a list stays open, a record is closed, a
-                # union keeps its current member): without the case's say-so clear only happens between top-level items;
-                # with it the call is made and - like after a refused command - only "nothing crashes, nothing raises an
-                # extraordinary exception, older snapshots stay what they were" is demanded from then on
+                # without the case's say-so clear only happens between top-level items; with it the call is made while
+                # something is open
                 if not case.get("clear_inside") or not strict:
                     continue
                 try:
@@ -582,10 +581,14 @@ def execute(node, case, rec, opts):
                     twin.send(ev)
                 except NodeError as e:
                     raise Violation("robustness", "clear_raised", {"error": [e.cls, e.msg[:300]]}, at=t)
-                strict = False
                 rec.fault("clear_inside_open_structure")
                 rec.ev(t, "clear_inside", len(model.stack))
                 check_old_snapshots(t, "clear inside an open structure")
+                # a cleared builder holds nothing and has nothing open (F110): the rest of the value that was being
+                # appended is not sent, the history goes on with the next top-level value
+                skip_open = len(model.stack)
+                model.clear()
+                relaxed = True
                 continue
             try:
                 b.send(ev)
@@ -659,6 +662,13 @@ def execute(node, case, rec, opts):
             continue
 
         # ---- an ordinary builder command
+        if skip_open:
+            # the remainder of the top-level value that clear() interrupted
+            if k in ("beginlist", "beginrecord", "begintuple"):
+                skip_open += 1
+            elif k in ("endlist", "endrecord", "endtuple"):
+                skip_open -= 1
+            continue
         legal = model.apply(ev) if strict else None
         raised = None
         if pending_fail is not None:
@@ -813,8 +823,10 @@ ASSUMPTIONS = [
     "ints become floats (complex) when a float (complex) arrived at the same type position, None is transparent, "
     "records of one name at one position share their fields in first-appearance order with absent fields None",
     "type knowledge is taken from everything appended so far, including items of still-open lists/records/tuples",
-    "after a refused (ill-nested) call, and after clear() while a list, record or tuple is open, the builder state is "
-    "unspecified: only immutability of older snapshots and survival of the process are still checked",
+    "after a refused (ill-nested) call the builder state is unspecified: only immutability of older snapshots and "
+    "survival of the process are still checked",
+    "clear() while a list, record or tuple is open leaves a builder that holds nothing and has nothing open (what "
+    "RecordBuilder and TupleBuilder always did, F6/F110): the commands of the interrupted value are not sent",
     "in histories containing clear(), numbers compare numerically and records may carry extra all-None fields "
     "(the property does not say whether type knowledge survives clear)",
     "append/extend sources are snapshots taken earlier in the run whose element type is record-free; the *_fast "
